@@ -46,16 +46,20 @@ pub struct Sc {
     /// 0: every stream write of the raw peer is one write; n > 0: it is cut into n-byte pieces with a pause of virtual time
     /// in between, so that every piece travels in a packet of its own and the reader sees short reads inside skipped payloads
     pub seg: usize,
+    /// the peer ends the session by finishing the session stream right after the late insertions (no close capsule): a skipped
+    /// element directly before the FIN is still a whole element
+    pub fin_end: bool,
 }
 
 impl Sc {
     pub fn to_json(&self) -> Value {
-        json!({"server_role": self.server_role, "seg": self.seg, "ins": self.ins.iter().map(|i| json!({"place": format!("{:?}", i.place), "ty": i.ty, "payload": vx::hex(&i.payload), "mode": i.mode})).collect::<Vec<_>>()})
+        json!({"server_role": self.server_role, "seg": self.seg, "fin_end": self.fin_end, "ins": self.ins.iter().map(|i| json!({"place": format!("{:?}", i.place), "ty": i.ty, "payload": vx::hex(&i.payload), "mode": i.mode})).collect::<Vec<_>>()})
     }
     pub fn from_json(v: &Value) -> Sc {
         Sc {
             server_role: v["server_role"].as_bool().unwrap(),
             seg: v["seg"].as_u64().unwrap_or(0) as usize,
+            fin_end: v["fin_end"].as_bool().unwrap_or(false),
             ins: v["ins"].as_array().unwrap().iter().map(|i| Ins {
                 place: PLACES.into_iter().find(|p| format!("{p:?}") == i["place"].as_str().unwrap()).unwrap(),
                 ty: i["ty"].as_u64().unwrap(),
@@ -228,8 +232,13 @@ pub async fn run(sc: Sc) -> Result<String, String> {
     let probe = got.lock().unwrap().iter().any(|v| v == b"probe");
     let n_streams = got.lock().unwrap().len();
     let mut tail = frames_for(&sc.ins, Place::SessLate);
-    tail.extend(rc::close_capsule_frame(7, b"bye"));
-    let w = write_seg(&mut sess_send, &tail, sc.seg).await;
+    if !sc.fin_end {
+        tail.extend(rc::close_capsule_frame(7, b"bye"));
+    }
+    let mut w = write_seg(&mut sess_send, &tail, sc.seg).await;
+    if sc.fin_end {
+        w = w.and(sess_send.finish().map_err(|e| format!("{e:?}")));
+    }
     settle_ms(1_000).await;
     let end = closed.lock().unwrap().clone();
     app.abort();
@@ -246,21 +255,21 @@ fn exec_raw(sc: &Sc) -> (Result<String, String>, ExecInfo) {
     run_sim(&SelectPolicy::default(), move || run(sc2))
 }
 
-static BASE: Mutex<[Option<String>; 2]> = Mutex::new([None, None]);
+static BASE: Mutex<[Option<String>; 4]> = Mutex::new([None, None, None, None]);
 
-fn baseline(server_role: bool) -> String {
-    let idx = server_role as usize;
+fn baseline(server_role: bool, fin_end: bool) -> String {
+    let idx = server_role as usize * 2 + fin_end as usize;
     if let Some(b) = &BASE.lock().unwrap()[idx] {
         return b.clone();
     }
-    let (r, _) = exec_raw(&Sc { server_role, ins: vec![], seg: 0 });
+    let (r, _) = exec_raw(&Sc { server_role, ins: vec![], seg: 0, fin_end });
     let v = r.unwrap_or_else(|e| format!("harness-error[{e}]"));
     BASE.lock().unwrap()[idx] = Some(v.clone());
     v
 }
 
 pub fn exec(sc: &Sc) -> Outcome {
-    let base = baseline(sc.server_role);
+    let base = baseline(sc.server_role, sc.fin_end);
     let (res, info) = exec_raw(sc);
     let mut o = match res {
         Ok(out) if out == base => Outcome::ok("unchanged", out),
@@ -327,14 +336,21 @@ pub fn scenarios(tier: Tier) -> Vec<Sc> {
             if !thorough && s.payload.len() > 100 && k % 3 != 0 {
                 continue;
             }
-            out.push(Sc { server_role: role, ins: vec![s.clone()], seg: 0 });
+            out.push(Sc { server_role: role, ins: vec![s.clone()], seg: 0, fin_end: false });
+            // the late insertion directly followed by the end of the session stream
+            if s.place == Place::SessLate {
+                out.push(Sc { server_role: role, ins: vec![s.clone()], seg: 0, fin_end: true });
+                if !s.payload.is_empty() && s.payload.len() <= 100 {
+                    out.push(Sc { server_role: role, ins: vec![s.clone()], seg: 1, fin_end: true });
+                }
+            }
             // the same insertion with the peer's writes cut into small pieces (short reads inside the skipped element)
             if !s.payload.is_empty() && s.place != Place::Setting && (thorough || k % 2 == 0) {
                 for seg in if thorough { vec![1usize, 2, 5, 300] } else { vec![1usize, 5] } {
                     if s.payload.len() > 100 && seg < 5 {
                         continue;
                     }
-                    out.push(Sc { server_role: role, ins: vec![s.clone()], seg });
+                    out.push(Sc { server_role: role, ins: vec![s.clone()], seg, fin_end: false });
                 }
             }
         }
@@ -353,10 +369,10 @@ pub fn scenarios(tier: Tier) -> Vec<Sc> {
         ];
         for a in 0..reps.len() {
             for b in a..reps.len() {
-                out.push(Sc { server_role: role, ins: vec![reps[a].clone(), reps[b].clone()], seg: if (a + b) % 4 == 0 { 2 } else { 0 } });
+                out.push(Sc { server_role: role, ins: vec![reps[a].clone(), reps[b].clone()], seg: if (a + b) % 4 == 0 { 2 } else { 0 }, fin_end: false });
                 for c in b..reps.len() {
                     if thorough || (a + b + c) % 4 == 0 {
-                        out.push(Sc { server_role: role, ins: vec![reps[a].clone(), reps[b].clone(), reps[c].clone()], seg: if (a + b + c) % 4 == 0 { 3 } else { 0 } });
+                        out.push(Sc { server_role: role, ins: vec![reps[a].clone(), reps[b].clone(), reps[c].clone()], seg: if (a + b + c) % 4 == 0 { 3 } else { 0 }, fin_end: false });
                     }
                 }
             }
@@ -369,7 +385,7 @@ pub fn run_check(args: &Args) -> i32 {
     if let Some(path) = &args.replay {
         let v = vx::load_replay(path);
         let sc = Sc::from_json(&v["scenario"]);
-        println!("baseline: {}", baseline(sc.server_role));
+        println!("baseline: {}", baseline(sc.server_role, sc.fin_end));
         return replay_one("C13", path, exec(&sc));
     }
     let rep = Report::new(
